@@ -137,6 +137,26 @@ structure WrapContract (wrap : Wrap) : Prop where
 def wrapEntryOk (s : Text) (w : Nat) (chunks : List Text) : Bool :=
   chunks.all (fun c => c.length ≤ w) && nonspace chunks.flatten == nonspace s
 
+/-- the characters `textwrap` rewrites before wrapping (`expand_tabs`, `replace_whitespace`):
+    `string.whitespace` other than the space itself -/
+def isMunged (c : Char) : Bool :=
+  c = '\t' || c = '\n' || c = Char.ofNat 0x0b || c = Char.ofNat 0x0c || c = '\r'
+
+/-- a line `textwrap.wrap` leaves alone when it fits: not empty, none of the rewritten characters,
+    and not ending in whitespace (`drop_whitespace` removes a trailing whitespace chunk; leading
+    whitespace of the FIRST line is kept) -/
+def wholeLine (s : Text) : Bool :=
+  !s.isEmpty && s.all (fun c => !isMunged c) && (s.getLast?.map fun c => !isSpace c).getD false
+
+/-- Second, independent part of `textwrap.wrap`'s behaviour (used only by the client → client
+    theorems): such a line, when it fits the width, is returned whole as the single line. -/
+structure WrapWhole (wrap : Wrap) : Prop where
+  whole : ∀ s w, wholeLine s = true → s.length ≤ w → wrap s w = [s]
+
+/-- decidable form of `WrapWhole` for one observed call -/
+def wholeEntryOk (s : Text) (w : Nat) (chunks : List Text) : Bool :=
+  !(wholeLine s && s.length ≤ w) || chunks == [s]
+
 inductive Err where
   | value          -- ValueError
   deriving Repr, DecidableEq
